@@ -62,6 +62,38 @@ PROPS = {
         level_text="Idempotence and byte classes are evaluated on every parse result produced by the workload for both URL types.",
         level_note="no reference model; only parser outputs are in the quantifier",
     ),
+    "C06": dict(
+        legs=[dict(monitor="idna", config="asan", name="idna:c06/asan", args=["--mode", "c06"], cases=K(300000, 30000000))],
+        rule="WPT IDNA vectors through URL host parsing; every scalar value c in 'a c b' compared with ICU UTS46 (stable alphabet: assigned in "
+             "Unicode 15 minus data/idna_drift.tsv) plus data-independent laws (map idempotent, mapped value NFC and lower-case); the Bidi class "
+             "table compared with ICU for every assigned code point through hook H7; generated multi-label domains, ContextJ/Bidi label shapes, "
+             "NFC strings vs ICU, Punycode vs an RFC 3492 reference, ToUnicode of encoded labels. Non-trivial: non-ASCII after mapping or an xn-- label. "
+             "Distinct: (generator, ICU error mask, outcome, length class).",
+        floors=dict(any={"compared_with_icu": 100000, "icu_accepts": 10000, "icu_rejects": 10000, "vectors": 2700, "hook.nfc_full": 100, "hook.nfc_already": 100, "bidi_table_cps_compared": 100000}),
+        assumptions=["oracle: system ICU (Unicode 15.x) UTS46 behind the URL Standard's flags; sound only on code points whose IDNA data is unchanged in Unicode 17: "
+                     "unassigned-in-15 code points and data/idna_drift.tsv are executed but not compared (counted as excluded_*)",
+                     "the ICU wrapper is gated in every run on reproducing every drift-free non-ASCII WPT IDNA vector",
+                     "non-ASCII domains with an xn-- label that does not decode are excluded (IgnoreInvalidPunycode is not fixed by the property)",
+                     "all-ASCII domains are only lower-cased (property text)"],
+        technique="differential runtime monitor against ICU UTS46 + exhaustive code-point sweeps + RFC 3492 reference + table export hook, under ASan/UBSan",
+        level_text="Every scalar value and 10^5-10^7 generated domains are judged against an independent UTS46 implementation; NFC, Punycode and the Bidi table "
+                   "have their own independent oracles; known, recorded defects are matched by coded narrow predicates.",
+        level_note="trusted: ICU 15 data/algorithm on the stable alphabet, ref_punycode.h, WPT vectors; Unicode 16/17-only code points are covered only by vectors and laws",
+        exhaustive=False,
+    ),
+    "C16": dict(
+        legs=[dict(monitor="idna", config="asan", name="idna:c16/asan", args=["--mode", "c16"], cases=K(300000, 30000000))],
+        rule="pairs of domain spellings related by a generator-known equivalence (NFD form, reordering of adjacent marks with distinct non-zero ccc, ASCII case, "
+             "insertion of ignored code points, full-width forms, ideographic full stops) must convert identically or both fail; results are idempotent, "
+             "lower-case ASCII, survive ToASCII(ToUnicode(ToASCII(x))) and agree with URL host parsing. Non-trivial: the two spellings differ and at least one converts. "
+             "Distinct: (relation, outcomes, length class).",
+        floors=dict(any={"evaluations": 100000}),
+        assumptions=["canonical equivalence is computed with ICU NFD on code points assigned in Unicode 15 (normalisation stability)",
+                     "relations that would turn an all-ASCII domain into a non-ASCII one are not generated (the all-ASCII carve-out changes the processing class)"],
+        technique="metamorphic runtime monitor (equivalent spellings, idempotence, round trips), under ASan/UBSan",
+        level_text="No expected values: each generated pair carries its own verdict through the relation that produced it.",
+        level_note="relations are sound by construction (Unicode stability policies); says nothing about absolute correctness (C06)",
+    ),
     "C07": dict(
         legs=[dict(monitor="hist", config="asan", name="hist:c07/asan", args=["--mode", "c07"], cases=K(100000, 10000000)),
               dict(monitor="hist", config="asan-dev", name="hist:c07/asan-dev", args=["--mode", "c07"], cases=K(30000, 1000000))],
